@@ -369,6 +369,13 @@ func (e *Env) structField(sv ssa.Value, idx int, depth int) (ssa.Value, *Env) {
 		if x.Op != token.MUL {
 			return nil, nil
 		}
+		if g, ok := x.X.(*ssa.Global); ok {
+			// a package-level table entry that nothing but its initialiser ever writes
+			if w := e.P.globalStructField(g, idx); w != nil {
+				return w, e
+			}
+			return nil, nil
+		}
 		al, ok := x.X.(*ssa.Alloc)
 		if !ok || al.Referrers() == nil {
 			return nil, nil
@@ -1726,6 +1733,17 @@ func (e *Env) LE(v ssa.Value) LE {
 			if w, we := e.ctorField(v); w != nil {
 				return we.LE(w)
 			}
+			if sv, _ := wholeStructForward(v); sv != nil {
+				if fa, ok := v.X.(*ssa.FieldAddr); ok {
+					if w, we := e.structField(sv, fa.Field, 0); w != nil {
+						return we.LE(w)
+					}
+				}
+			}
+		}
+	case *ssa.Field:
+		if w, we := e.structField(v.X, v.Field, 0); w != nil {
+			return we.LE(w)
 		}
 	case *ssa.Phi:
 		t := e.Term(v)
@@ -1994,6 +2012,82 @@ func (p *Prog) globalLen(g *ssa.Global) (int64, bool) {
 
 var initFuncs []*ssa.Function
 
+var globalFieldCache = map[string]ssa.Value{}
+
+// globalStructField: the constant that the package initialiser stores into field idx of the package-level struct g (the
+// zero value if the literal does not mention the field), provided nothing else in the module writes the variable, one of its
+// fields, or takes its address.
+func (p *Prog) globalStructField(g *ssa.Global, idx int) ssa.Value {
+	key := g.String() + "#" + fmt.Sprint(idx)
+	if v, ok := globalFieldCache[key]; ok {
+		return v
+	}
+	globalFieldCache[key] = nil
+	st, ok := g.Type().(*types.Pointer).Elem().Underlying().(*types.Struct)
+	if !ok || idx >= st.NumFields() {
+		return nil
+	}
+	var val ssa.Value
+	n := 0
+	for _, fn := range p.allFuncsIncludingInit() {
+		for _, b := range fn.Blocks {
+			for _, in := range b.Instrs {
+				for _, op := range in.Operands(nil) {
+					if *op != ssa.Value(g) {
+						continue
+					}
+					switch x := in.(type) {
+					case *ssa.UnOp: // a load of the whole struct
+					case *ssa.FieldAddr:
+						if x.Referrers() == nil {
+							continue
+						}
+						for _, r := range *x.Referrers() {
+							switch y := r.(type) {
+							case *ssa.UnOp:
+							case *ssa.Store:
+								if y.Addr != ssa.Value(x) || fn.Name() != "init" {
+									return nil
+								}
+								if x.Field == idx {
+									n++
+									val = y.Val
+								}
+							default:
+								return nil
+							}
+						}
+					default:
+						return nil // stored to as a whole, or its address handed on
+					}
+				}
+			}
+		}
+	}
+	if n > 1 {
+		return nil
+	}
+	if n == 0 {
+		bt, ok := st.Field(idx).Type().Underlying().(*types.Basic)
+		if !ok {
+			return nil
+		}
+		switch {
+		case bt.Info()&types.IsInteger != 0:
+			val = ssa.NewConst(constant.MakeInt64(0), st.Field(idx).Type())
+		case bt.Info()&types.IsBoolean != 0:
+			val = ssa.NewConst(constant.MakeBool(false), st.Field(idx).Type())
+		default:
+			return nil
+		}
+	}
+	if _, isConst := val.(*ssa.Const); !isConst {
+		return nil
+	}
+	globalFieldCache[key] = val
+	return val
+}
+
 func (p *Prog) allFuncsIncludingInit() []*ssa.Function {
 	if initFuncs == nil {
 		seen := map[*ssa.Function]bool{}
@@ -2235,6 +2329,17 @@ func (e *Env) decode0(c ssa.Value, truth bool, why string) []Fact {
 			if w, we := e.ctorField(b); w != nil {
 				return we.decode(w, truth, why)
 			}
+			if sv, _ := wholeStructForward(b); sv != nil {
+				if fa, ok := b.X.(*ssa.FieldAddr); ok {
+					if w, we := e.structField(sv, fa.Field, 0); w != nil {
+						return we.decode(w, truth, why) // a flag of a parameter object / table entry
+					}
+				}
+			}
+		}
+	case *ssa.Field:
+		if w, we := e.structField(b.X, b.Field, 0); w != nil {
+			return we.decode(w, truth, why)
 		}
 	case *ssa.Parameter:
 		if a, pe := e.actual(b); a != nil {
@@ -3223,6 +3328,29 @@ func (e *Env) resultFacts(r *ssa.Return, m map[string]Fact) {
 			}
 		}
 	}
+}
+
+// deadBlocks: blocks that cannot be reached in this calling context (every path to them crosses an edge whose condition is
+// constantly false here, e.g. a flag of the parameter object the caller passed).
+func (e *Env) deadBlocks() map[*ssa.BasicBlock]bool {
+	cut := map[edge]bool{}
+	for ed, fs := range e.EdgeFacts() {
+		for _, f := range fs {
+			if f.Lin && f.LE.isConst() && f.LE.k < 0 {
+				cut[ed] = true
+			}
+		}
+	}
+	out := map[*ssa.BasicBlock]bool{}
+	if len(cut) == 0 {
+		return out
+	}
+	for _, b := range e.Fn.Blocks {
+		if !reachableAvoiding(e.Fn.Blocks[0], b, cut) {
+			out[b] = true
+		}
+	}
+	return out
 }
 
 // unreachableUnder: every path from the entry to block p traverses an edge that contradicts the assumptions.
